@@ -20,7 +20,7 @@ for oc, ocn in enumerate(OPCLASS):
         for rk, rkn in enumerate(KINDS):
             nm = "binary_o%d_%d_%d" % (oc, lk, rk)
             add(nm, "6.a", "binary_step!(%s, %d, %d, %d);" % (nm, oc, lk, rk),
-                tier="quick" if (oc in (0, 1, 4) or lk == rk or lk == 0 or rk == 0) else "thorough",
+                tier="quick" if (lk == rk or lk == 0 or rk == 0 or (oc == 1 and 1 in (lk, rk))) else "thorough",
                 input_class="binary:%s:%s,%s" % (ocn, lkn, rkn),
                 shape={"operator": ocn, "left": lkn, "right": rkn, "contents": "any double / 2 symbolic ASCII bytes / any bool"})
 for k, kn in enumerate(KINDS):
